@@ -539,7 +539,7 @@ theorem decToF64_pos_le (mant : Nat) (e : Int) : decToF64 false mant e ≤ infBi
 theorem decToF64_neg_eq_neg (mant : Nat) (e : Int) : decToF64 true mant e = F64.neg (decToF64 false mant e) := by
   have h := decToF64_pos_le mant e
   rw [decToF64_neg]
-  unfold F64.neg signMask; unfold infBits at h
+  unfold F64.neg F64.negX signMask; unfold infBits at h
   have : decToF64 false mant e / 2 ^ 63 % 2 = 0 := by omega
   simp [this]; omega
 
